@@ -529,7 +529,8 @@ class C15(Sides, C15Wait):
     # handling of notification batches in any delivery order (the C06 check) is part of what C15 promises
     side_specs = [Spec('client', 'c06', ['progression', 'final_state_consistent', 'no_exception']),
                   # ... and the pilot objects theirs (the C14 check, incl. two notifications handled at once)
-                  Spec('pilot', 'c14', ['progression', 'final_state_consistent', 'no_unexpected_exception'])]
+                  Spec('pilot', 'c14', ['progression', 'final_state_consistent', 'no_unexpected_exception'],
+                       only=lambda c: not (isinstance(c, dict) and c.get('kind') == 'launch'))]
     clauses = C15Wait.clauses + side_specs[0].clause_names() + side_specs[1].clause_names()
     extra_targets = C15Wait.extra_targets + ['States/Oracle.vo', 'AgentCause/Model.vo']
     model_targets = C15Wait.model_targets + ['States/Oracle.vo', 'AgentCause/Model.vo']
